@@ -190,7 +190,15 @@ func (v *View) checkC02(res *Result) {
 			res.viol("C02", "claim-unbacked", "claim-unbacked-at-"+e.S, fmt.Sprintf("%s claims token %s at %s; record ok=%v id=%s tok=%s", e.Inst, e.Token, e.S, e.RecOK, e.RecID, e.RecTok), idx)
 		case "api.return":
 			if (e.API == "Stop" || e.API == "StopWithContext") && e.Flag {
-				res.viol("C02", "claim-after-stop", "claim-at-stop-return", e.Inst+" reports leadership when its stop call returns", idx)
+				racing := false
+				for _, a := range v.APIs {
+					if a.Ret == idx && v.startDuring(a) {
+						racing = true // a Start issued during the stop call restarted the election
+					}
+				}
+				if !racing {
+					res.viol("C02", "claim-after-stop", "claim-at-stop-return", e.Inst+" reports leadership when its stop call returns", idx)
+				}
 			}
 		}
 	}
